@@ -137,6 +137,8 @@ def gen_spec(rng, tier):
             bad = rng.choice(["loop", "high", "neg"])
             v = rng.below(n)
             e = [v, v] if bad == "loop" else [v, n + rng.below(3)] if bad == "high" else [-1 - rng.below(2), v]
+            if rng.chance(0.5):
+                e = e[::-1]
             ed.insert(rng.below(len(ed) + 1), e)
     spec["edges"] = ed
     if ed and rng.chance(0.6):
